@@ -63,7 +63,8 @@ class Body(nn.Module):
 def lifted(d):
   if d['kind'] == 'scan':
     return nn.scan(Body, variable_axes=dict(VAXES), variable_broadcast='bc', variable_carry='carry',
-                   split_rngs={s: sp for s, sp in d['split'].items()}, in_axes=0, out_axes=0, length=d['length'], reverse=d['reverse'], unroll=d['unroll'])
+                   split_rngs={s: sp for s, sp in d['split'].items()}, in_axes=0, out_axes=0, length=d['length'], reverse=d['reverse'], unroll=d['unroll'],
+                   check_constancy_invariants=not d.get('no_cci', False))
   return nn.vmap(Body, variable_axes={**VAXES, 'bc': None, 'carry': None}, split_rngs={s: sp for s, sp in d['split'].items()},
                  in_axes=(None, 0), out_axes=0, axis_size=d['length'])
 
@@ -156,12 +157,14 @@ def axes_case(d):
   slices = [rs.randint(-3, 4, size=shape).astype(np.int64) for _ in range(L)]
   xs = np.stack(slices, axis=ia)
   c0 = jnp.asarray(d['c0'], dtype=jnp.int64)
-  S = nn.scan(AxCell, variable_axes={'trace': va}, variable_broadcast='params', split_rngs={'params': False}, in_axes=ia, out_axes=oa, length=L,
-              reverse=d['reverse'])
+  mk = lambda cci: nn.scan(AxCell, variable_axes={'trace': va}, variable_broadcast='params', split_rngs={'params': False}, in_axes=ia, out_axes=oa, length=L,
+                           reverse=d['reverse'], check_constancy_invariants=cci)
+  S0 = mk(True)                                # initialising a broadcast collection needs the constancy pre-pass
+  S = mk(not d.get('no_cci', False))
   out = {}
 
   def run():
-    variables = S().init(jax.random.key(0), c0, jnp.asarray(xs))
+    variables = S0().init(jax.random.key(0), c0, jnp.asarray(xs))
     tshape = list(np.shape(variables['trace']['t']))
     t0 = [rs.randint(-2, 3, size=shape).astype(np.int64) for _ in range(L)]
     variables = {'params': variables['params'], 'trace': {'t': jnp.asarray(np.stack(t0, axis=va))}}
